@@ -71,10 +71,12 @@ Definition getd (k : key) (d : dict) (dflt : val) : val :=
   match lookup k d with Some v => v | None => dflt end.
 Definition is_empty (d : dict) : bool := match d with [] => true | _ => false end.
 
+(* the IEEE double written 1e-8 in the signature, as the exact rational it denotes *)
+Definition tol_default : Q := 3022314549036573 # 302231454903657293676544.
 (* ---- runpp signature (run.py:68-72): inspect.getfullargspec(runpp) args[1:] zipped with defaults *)
 Definition named_defaults : dict :=
   [ ("algorithm", VS "nr"); ("calculate_voltage_angles", VB true); ("init", VS "auto");
-    ("max_iteration", VS "auto"); ("tolerance_mva", VQ (1 # 100000000)); ("trafo_model", VS "t");
+    ("max_iteration", VS "auto"); ("tolerance_mva", VQ tol_default); ("trafo_model", VS "t");
     ("trafo_loading", VS "current"); ("enforce_q_lims", VB false); ("check_connectivity", VB true);
     ("voltage_depend_loads", VB true); ("consider_line_temperature", VB false);
     ("run_control", VB false); ("distributed_slack", VB false); ("tdpf", VB false);
@@ -260,6 +262,19 @@ Definition oval (v : val) : out :=
   match v with VB b => OB b | VZ z => OZ z | VQ q => oq q | VS s => OS s | VNone => ONone end.
 Definition odict (d : dict) : out := olist (fun kv => OL [OS (fst kv); oval (snd kv)]) d.
 Definition ores (r : res dict) : out := match r with Ok d => odict d | Err e => OErr e end.
+(* output compression for the correspondence run: strings found in the table are printed as their index
+   (printing and parsing string literals dominates the evaluation time otherwise) *)
+Fixpoint index_of (s : string) (tbl : list string) (i : Z) : option Z :=
+  match tbl with
+  | [] => None
+  | t :: tbl' => if String.eqb s t then Some i else index_of s tbl' (i + 1)%Z
+  end.
+Fixpoint intern (tbl : list string) (o : out) : out :=
+  match o with
+  | OS s => match index_of s tbl 0%Z with Some i => OL [ONone; OZ i] | None => OS s end
+  | OL l => OL (map (intern tbl) l)
+  | x => x
+  end.
 Definition run_options (f : facts) (stored explicit : dict) : out :=
   OL [ ores (runpp_options f stored explicit);
        oopt odict (passed_parameters stored (call_named explicit) (call_kwargs explicit));
